@@ -14,6 +14,8 @@ import os
 import re
 import types
 
+import verif
+
 THEOREMS = ["IstioModel.C06.Theorems"]
 
 
@@ -45,9 +47,28 @@ def _case_of(lines, i):
     return lines[s:e]
 
 
+def _fingerprint(ostream, verdict):
+    """Stable name of the failing input class: stream, clause, and for the real-generator streams the proxy attribute
+    and the xDS type concerned (so that different key/invalidation defects are different findings)."""
+    f = verdict.split()
+    clause = f[1] if len(f) > 1 else "?"
+    fp = "%s:%s" % (ostream, clause)
+    d = [t for t in f if t.startswith("diff:")]
+    if ostream in ("keys", "writers") and d:
+        parts = d[0].split(":")
+        attr = [t[5:] for t in f if t.startswith("attr=")]
+        if not attr and len(parts) >= 5:      # seq: diff:<round>:<pos>:<attr>:<resource>
+            attr = [parts[3]]
+        res = parts[-1] if len(parts) < 5 else ":".join(parts[4:])
+        if attr:
+            fp += ":" + attr[0]
+        fp += ":" + res.split("/")[0]
+    return fp, clause
+
+
 def oracle(ctx, stream, case_lines, rep):
     """Property-level search on the implementation: the shrunk case, everything generated, then the
-    exhaustive interleaving enumeration."""
+    exhaustive interleaving enumeration. Every distinct failing input class becomes its own violation."""
     cands = []
     if case_lines and len(case_lines) > 1:
         p = os.path.join(ctx.work, "%s.oracle.ops" % stream)
@@ -63,6 +84,8 @@ def oracle(ctx, stream, case_lines, rep):
             ctx.harness("gen", "interleave", ctx.seed, ctx.n(8, 40), il)
         if os.path.exists(il):
             cands.append(("interleave", il))
+    first = None
+    seen = set()
     for ostream, ops in cands:
         out = ops + ".verdict"
         if os.path.exists(out):
@@ -74,11 +97,42 @@ def oracle(ctx, stream, case_lines, rep):
         lines = ctx.read_lines(ops)
         for i, v in enumerate(verdicts):
             if v.startswith("FAIL"):
-                clause = v.split()[1]
-                return ("%s:%s" % (ostream, clause),
-                        "xDS cache violates clause '%s' on the real code (%s)" % (clause, ostream),
-                        {"stream": ostream, "ops": _case_of(lines, i), "oracle_verdict": v, "correspondence": rep})
-    return None
+                fp, clause = _fingerprint(ostream, v)
+                if fp in seen or len(seen) >= 8:
+                    continue
+                seen.add(fp)
+                found = (fp, "xDS cache violates clause '%s' on the real code (%s): %s" % (clause, ostream, " ".join(v.split()[2:])[:200]),
+                         {"stream": ostream, "ops": _case_of(lines, i), "oracle_verdict": v, "correspondence": rep})
+                if first is None:
+                    first = found
+                else:
+                    ctx.violation(found[0], found[1], found[2], True)
+    return first
+
+
+def build_harness(ctx):
+    """Plain build (hooks of the first C06 hook commits) must work; the build with -tags c06ext additionally needs
+    the newer entry points of pilot/pkg/xds/zz_verif_c06.go (delta request/push, typed config dump). A tree whose
+    hook file lacks them is checked with the plain binary and the broken tie is reported."""
+    if not ctx.go_build():
+        return False
+    out = ctx.bin_path + ".ext"
+    if os.path.exists(out):
+        os.remove(out)
+    extra = []
+    if os.path.realpath(verif.REPO) != "/repo":
+        extra = ["-modfile=" + os.path.join(ctx.work, "alt.go.mod")]
+    rc, log, dt = verif.sh(["go", "build", "-tags", "verif c06ext"] + extra + ["-o", out, "./c06"], cwd=verif.HARNESS,
+                           env=verif.go_env(), timeout=1500)
+    ctx.log("go build -tags 'verif c06ext' ./c06 rc=%d (%.1fs)" % (rc, dt))
+    if rc == 0:
+        ctx.bin_path = out
+    else:
+        ctx.tie_broken("harness-build:c06-ext-hooks",
+                       "the newer verif hooks (VerifC06NewDeltaConnection, VerifC06ProcessDeltaRequest, VerifC06PushConnectionDelta, "
+                       "VerifC06ConfigDumpTypes in pilot/pkg/xds/zz_verif_c06.go) do not build against this tree; delta and typed "
+                       "config-dump writers were not exercised:\n" + log)
+    return True
 
 
 def race(ctx, secs):
@@ -90,6 +144,8 @@ def race(ctx, secs):
     their Start, (b) stale entries stored in the real CDS cache by such requests, (c) CDS answers served from the cache
     that were derived from an older DestinationRule than the request's own context holds. All three must be 0."""
     rc, out = ctx.harness("race", "f8", secs, 8, timeout=900)
+    if rc != 0:  # wall-clock deadlines of the fake server on a loaded machine: one more try
+        rc, out = ctx.harness("race", "f8", secs, 8, timeout=900)
     m = re.search(r"proxyupdate_calls=(\d+) clears=(\d+) .*incoherent_pairs=(\d+) \(from ProxyUpdate only: (\d+)\)", out)
     st = re.search(r"token == its Start\): (\d+)", out)
     sv = re.search(r"request's own context holds: (\d+)", out)
@@ -123,6 +179,11 @@ def run(ctx):
         "dependency that its data does not reflect (StartPush stamps Start after the snapshot is published; processRequest and the "
         "debug config dump reuse the (LastPushContext, LastPushTime) pair; ProxyUpdate/AdsPushAll read the pair under "
         "pushContextMu) - validated on the real code by stream writers (sequential) and the race stress (statistical), not proved",
+        "GenLocal + in-sync invalidation (hypothesis of never_stale / cache_invisible): DependentConfigs() of every entry names every "
+        "config (and endpoint set) its generation reads, and every accepted change of one of them reaches Clear/ClearAll "
+        "(dropCacheForRequest, EndpointIndex.clearCacheForService, PeerAuthentication => EDS ClearAll) - validated, not proved, by "
+        "stream writers: DestinationRule/VirtualService/ServiceEntry(endpoints, ports)/EnvoyFilter/PeerAuthentication edits, Secret "
+        "rotation, create/delete of DR/VS/Sidecar/EnvoyFilter/PeerAuthentication, raw EndpointIndex updates without push",
         "the wall clock is strictly increasing between a writer's Start and any later Clear (Add rejects only token < cache token)",
         "ConfigKey.HashCode is injective on the configs in play; UnixNano of Start is non-negative",
         "KeyComplete (the cache key determines every input generation reads) is validated on the real key functions by the "
@@ -134,9 +195,18 @@ def run(ctx):
     proved = ctx.lean_prove(THEOREMS)
     if not ctx.build_drv():
         return
-    if not ctx.go_build():
+    if not build_harness(ctx):
         return
     ctx.diff_stream("cache", ctx.n(700, 20000), oracle=oracle)
+    st = os.path.join(ctx.work, "cache.run.impl.stats")
+    if os.path.exists(st):
+        d = dict(l.split() for l in ctx.read_lines(st) if len(l.split()) == 2)
+        unresolved = int(d.get("timing_unresolved", 0))
+        ctx.count("cache.timing_unresolved_cases", unresolved)
+        ctx.count("cache.timing_retries", int(d.get("timing_retries", 0)))
+        if unresolved * 20 > max(1, ctx.streams.get("cache", {}).get("cases", 0)):
+            ctx.tie_broken("cache-timing", "%d cases could not be mapped to the wall clock (machine too loaded); "
+                           "the cache correspondence was not established for them" % unresolved)
     # second line, independent of the model: the property oracle on every generated case ...
     g = os.path.join(ctx.work, "cache.gen.ops")
     if os.path.exists(g):
@@ -201,7 +271,7 @@ def replay(ctx, path):
     if not ops:
         ctx.log("replay file has no ops; re-running the full check")
         return run(ctx)
-    if not (ctx.build_drv() and ctx.go_build()):
+    if not (ctx.build_drv() and build_harness(ctx)):
         return
     p = os.path.join(ctx.work, "replay.ops")
     with open(p, "w") as f:
